@@ -21,7 +21,9 @@ func (e *OnlyExpr) Evaluate(engine *Engine, input interface{}, args []*Statement
 		return nil, nil
 	}
 
-	inputSliceType := TypeOfSliceElement(input)
+	// The elements can be of any type, including interface{} (which
+	// TypeOfSliceElement does not return a type for).
+	inputSliceType := in.Type().Elem()
 	results := reflect.MakeSlice(reflect.SliceOf(inputSliceType), 0, 0)
 
 	condition := args[0]
